@@ -53,7 +53,8 @@ REQUIRED = dict(
               'hdf5:columns-as-written'],
     classes=['source:array', 'source:text', 'source:hdf5', 'columns:3', 'columns:4', 'order:ascending-wavelength',
              'order:descending-wavelength', 'order:random', 'n:2', 'grid:linear', 'grid:constR', 'grid:irregular',
-             'grid:two-instruments', 'widths:overlapping-bins', 'widths:narrow'])
+             'grid:two-instruments', 'widths:overlapping-bins', 'widths:narrow',
+             'second-observation:same-count-and-ends-other-spacing', 'second-observation:columns-3'])
 EPS = float(np.finfo(float).eps)
 
 _state = {'last_obs': None, 'last_binner_decl': None, 'ctx': None}
@@ -297,6 +298,26 @@ def wl_array(ctx, rng):
     rows, kind, wkind = gen_rows(rng)
     observe_case(ctx, 'array', rows, kind, wkind)
     run_source(ctx, rng, 'array', rows, lambda r: ArraySpectrum(np.array(r, copy=True)))
+    # ANOTHER observation right after it, with the same number of rows and the same first and last wavelength but the
+    # other spacing (linear <-> geometric): nothing derived for the first grid may be handed to the second.  Every
+    # loaded object is judged by the tap on the loader.
+    n = rows.shape[0]
+    if n >= 3 and rng.random() < 0.6:
+        lam = np.sort(rows[:, 0])
+        lin = np.linspace(lam[0], lam[-1], n)
+        geo = np.geomspace(lam[0], lam[-1], n)
+        lam2 = geo if np.max(np.abs(lam - lin)) <= np.max(np.abs(lam - geo)) else lin
+        lam2[0], lam2[-1] = lam[0], lam[-1]
+        if rows.shape[1] == 3 and lam2[0] - 0.5 * (lam2[1] - lam2[0]) <= 0:
+            return
+        r2 = rows[np.argsort(rows[:, 0])].copy()
+        r2[:, 0] = lam2
+        r2[:, 1] = 1e4 / lam2
+        if rows.shape[1] == 4:
+            r2[:, 3] = np.minimum(r2[:, 3], 1.8 * lam2 * 0.99)
+        order = rng.permutation(n) if rng.random() < 0.5 else np.arange(n)
+        ArraySpectrum(np.array(r2[order], copy=True))
+        ctx.observe('second-observation:same-count-and-ends-other-spacing', 'second-observation:columns-%d' % rows.shape[1])
 
 
 def wl_text(ctx, rng):
